@@ -670,6 +670,22 @@ def selectVROTwice (c : VroCfg) (a : VroArgs) : Except Err VroOut :=
   | .ok o1 =>
     selectVRO { c with vroDict := o1.dict', exact := o1.exact, cmdTags := o1.cmdTags, prevPreferred := o1.vro } a
 
+/-! ## the VRO in force for one `setupRequired` / `setupOptional` line (table.py `processArgs`, l.889-945) -/
+
+/-- `vro` = `Eups.getPreferredTags()`; `lineVro` = the words of `--vro`, `lineTags` = the recognised `-t`
+tags of the line, `lineKeep` = `-k`.  The result is pushed with `pushStack("vro", ..)` for the
+duration of the dependency's setup. -/
+def tableLineVro (vro : List Str) (lineVro : Option (List Str)) (lineTags : List Str) (lineKeep : Bool) : List Str :=
+  let keep :=
+    match lineVro with
+    | some v => if v == [kVersionBang] then false else vro.contains kKeep
+    | none => lineKeep || vro.contains kKeep
+  let base :=
+    match lineVro with
+    | some v => v
+    | none => lineTags ++ vro
+  if keep then kKeep :: base else base
+
 /-! ## a small concrete order for the correspondence runs and the examples
 
 Dotted decimal versions (`1.0`, `1.10`, `2.0.1`): components compared as numbers, a proper prefix
